@@ -95,10 +95,16 @@ OnRecv(st0, e) ==
 PtrQs(e) == {e.qs[k] : k \in {j \in 1..Len(e.qs) : e.qs[j].rt = 12}}
 AskedTypes(e) == {q.ty : q \in PtrQs(e)}
 
+(* a refresh query needs a record of its type that is past the start of its first window and that was neither refreshed nor
+   withdrawn (both replace / remove the entry) nor reported Removed after it expired (OnRemoved): a record that ran out a
+   moment ago and has not been purged yet may still be asked for -- the statement only excludes "refreshed or withdrawn" *)
 Justified(st, ty, t) ==
   \E i \in Ids : /\ st.rec[i] # None /\ TyOf(i) = ty
                  /\ t >= WLo(st.rec[i], 0, st.delay)
-                 /\ t < st.rec[i].c + 1000 * st.rec[i].ttl
+
+OnRemoved(st, e) ==
+  IF e.kind = "rem" /\ e.alias \in Ids /\ st.rec[e.alias] # None /\ st.rec[e.alias].c + 1000 * st.rec[e.alias].ttl <= e.t
+  THEN [st EXCEPT !.rec[e.alias] = None] ELSE st
 
 Served(st, tys, t) ==
   {<<i, k>> : i \in {j \in Ids : st.rec[j] # None /\ TyOf(j) \in tys}, k \in 0..2} \cap
@@ -170,7 +176,7 @@ Step(st0, e) ==
           [] e.ev = "rand"    -> IF e.site = "first" /\ st1.active /\ st1.r < 0 THEN [st1 EXCEPT !.r = e.v] ELSE st1
           [] e.ev = "reg"     -> [st1 EXCEPT !.canAns = @ \cup {e.ty}]
           [] e.ev = "bcancel" -> [CloseQuery(st1) EXCEPT !.active = FALSE]
-          [] e.ev = "cb"      -> st1
+          [] e.ev = "cb"      -> OnRemoved(st1, e)
           [] e.ev = "end"     -> CloseQuery(st1)
           [] e.ev = "exc"     -> Fail(st1, "C15_NoException")
           [] OTHER            -> Fail(st1, "Trace_Malformed")
